@@ -5,6 +5,21 @@ import json, subprocess, os
 ALL = ["C%02d" % i for i in range(1, 21)]
 # id -> (category, technique, level text, level note, design ref)
 CHECKS = {
+ "C17": ("exploration",
+  "small-scope exhaustive enumeration: every program of a feature profile and of the C01 grammar profiles is compiled, written, read back, re-written and both programs executed and compared",
+  "For every enumerated program Write(CompiledProgram(Write(P))) is byte-identical and the decoded program is observably identical to the original (probe trace, globals, error text, call-stack positions, backtrace, docstrings, parameter metadata, free variables, load list, step count). Exhaustive within the reported levels.",
+  "The in-memory program executed by the production interpreter is the reference for the decoded one; programs larger than the completed levels are outside the bound.",
+  "DESIGN.md §3 C17"),
+ "C18": ("exploration",
+  "small-scope exhaustive enumeration of JSON values (trees up to a node bound over an edge-case leaf pool, with sharing/alias variants) and of JSON documents (all grammar sentences up to a token bound x lexical deviations x single-token corruptions) against an independent RFC 8259 recogniser/value builder cross-checked with encoding/json",
+  "Every value in the bound encodes to a document the reference recogniser accepts and that denotes the same data, round-trips through decode, and every enumerated document is accepted with the reference value iff it is valid JSON, default= being returned only for invalid input. Exhaustive within the stated bounds.",
+  "Trusts the reference recogniser (cross-checked against encoding/json on every text; disagreement is a harness error). Duplicate member names, non-UTF-8 input, out-of-range numbers and lone surrogates are not judged beyond acceptance.",
+  "DESIGN.md §3 C18"),
+ "C19": ("exploration",
+  "exhaustive enumeration of all ordered operand pairs (time, duration, int, float, string, None values incl. zone-shifted instants) x all 12 operators, evaluated through the real operator dispatch, against the documented operator table in exact integer nanoseconds, plus algebraic laws on all pairs/triples",
+  "Every (kind, operator, kind) combination over the value pool either yields the exact result defined by the lib/time operator table or is rejected; the round-trip, ordering, hashing and zone-independence laws hold on all pairs and triples of the pool, under three host time zones.",
+  "Results that do not fit int64 nanoseconds are not judged; value pool is boundary-oriented, not all instants.",
+  "DESIGN.md §3 C19"),
  "C01": ("exploration",
   "small-scope exhaustive enumeration of programs (8 grammar profiles, iterative deepening by size) executed by the production pipeline and by an independent tree-walking reference evaluator",
   "Every program of every profile up to the completed size level is executed on both sides under the needed dialect options, all options on, and periodically all 16 option combinations; the probe trace with argument values, final globals (with aliasing), outcome and position of the failing operation must agree. Exhaustive within the reported levels; larger programs are outside the bound.",
